@@ -155,6 +155,15 @@ func (b *builder) directTask() TaskSpec {
 		if b.r.Chance(1, 2) {
 			t.A = b.g.Mutate(t.A, 3)
 		}
+		if b.r.Chance(1, 4) {
+			// parameters the token parser rejects in front of the branch, followed by quotes and
+			// escapes that are open, closed or cut at the very end of the value
+			v := "SIP/2.0/UDP " + b.g.Host() + b.r.Pick([]string{";x=a=b", ";a b=c", ";=v", ";k=v=w", ";pad=YWI="})
+			for k := b.r.Intn(3); k >= 0; k-- {
+				v += b.r.Pick([]string{"\"q", "\"q\\", "\"q\\\"", "\"", ";y=\"a;b\"", ";branch=z9hG4bKx.y", ";z=\"\\", "\\", ",SIP/2.0/UDP h;branch=1", ";w=\"a,b", " "})
+			}
+			t.A = []byte(v)
+		}
 	case "GetMsgSig":
 		t.A = b.hostileBytes(600)
 		t.N1, t.N2, t.N3 = b.r.Intn(4), b.r.PickInt(-2, -1, 0, 1, 3, 8, 30), b.r.PickInt(-1, 0, 1, 4)
